@@ -7,10 +7,12 @@ for k in 1 2 3 4 5 6; do
   p=$root/out/$k/patch.diff; [ -f $p ] || p=$d/patch.diff; [ -f $p ] || continue      # re-evaluation: the stored patch
   mkdir -p $d
   [ "$p" = "$d/patch.diff" ] || { cp $p $d/patch.diff; cp $root/out/$k/README.md $d/NOTES.md 2>/dev/null; }
-  cd /repo && git apply $d/patch.diff || { echo "$id-$k apply failed"; continue; }
+  R=${EVAL_REPO:-/repo}
+  cd $R && git apply $d/patch.diff || { echo "$id-$k apply failed"; continue; }
   # a re-evaluation keeps the first verdict: check_<pid>.first.log is written once, check_<pid>.log is the latest run
   [ -f $d/check_$pid.log ] && [ ! -f $d/check_$pid.first.log ] && cp $d/check_$pid.log $d/check_$pid.first.log
-  cd /verif && NV_CBMC_TIMEOUT=900 ./check $pid --no-evidence > $d/check_$pid.log 2>&1; rc=$?
-  cd /repo && git checkout -- .
+  if [ "$R" = "/repo" ]; then cd /verif && NV_CBMC_TIMEOUT=900 ./check $pid --no-evidence > $d/check_$pid.log 2>&1; rc=$?
+  else cd /verif && NV_REPO=$R NV_SCRATCH=${EVAL_SCRATCH:-$R.scratch} NV_CBMC_TIMEOUT=900 ./check $pid --no-evidence > $d/check_$pid.log 2>&1; rc=$?; fi
+  cd $R && git checkout -- .
   echo "$id-$k check($pid) exit=$rc :: $(grep -c 'refuted:' $d/check_$pid.log) refuted, $(grep -c '^UNDECIDED' $d/check_$pid.log) undecided"
 done
